@@ -63,7 +63,7 @@ def read_binary(case):
     prove("one_unpack", len(f.reads) == 1)
     rt, rc, rp = f.reads[0]
     prove("position", SV.lift(rp) == start)
-    prove("type_and_count", rt == t and bool(SV.lift(rc) == n))
+    prove("type_and_count", core.conj(rt == t, SV.lift(rc) == n))
     k = core.fresh_int("k", 0)
     core.assume(k < n)
     got = res[k] if not isinstance(res, tuple) else snp._select(list(res), k)
@@ -72,7 +72,7 @@ def read_binary(case):
     prove("advance", G.pos(off) == p0 + adv)
     for key in G.OFFSET_KEYS:
         if key not in (t, "n"):
-            prove("frame[%s]" % key, off[key] is before[key] or bool(off[key] == before[key]))
+            prove("frame[%s]" % key, True if off[key] is before[key] else (off[key] == before[key]))
     prove("record_count", off["n"] == before["n"] + 1)
 
 
@@ -83,7 +83,7 @@ def skip_line(case):
     off = G.fresh_offsets()
     p0 = G.pos(off)
     nbytes = utils.skip_binary_line(content=f, offsets=off)
-    prove("reads_the_record_marker", len(f.reads) == 1 and bool(SV.lift(f.reads[0][2]) == p0) and f.reads[0][0] == "i")
+    prove("reads_the_record_marker", core.conj(len(f.reads) == 1, SV.lift(f.reads[0][2]) == p0, f.reads[0][0] == "i"))
     prove("returns_marker_value", nbytes == smisc.decode(f.fileid, "i", p0))
     prove("advance_two_markers", G.pos(off) == p0 + 8)
 
@@ -170,7 +170,7 @@ def amr_header(case):
         b = core.fresh_int("b", 0)
         core.assume(b < nboundary)
         prove("numbb.layout", tab.elem((ncpu + b, l)) == smisc.decode(fid, "i", pos_by["numbb"] + 4 * (l * nboundary + b)))
-    prove("table.shape", bool(tab.shape[0] == ncpu + nboundary) and bool(tab.shape[1] == lm))
+    prove("table.shape", core.conj(tab.shape[0] == ncpu + nboundary, tab.shape[1] == lm))
     j = core.fresh_int("j", 0)
     core.assume(j < lm)
     prove("dtold.value", info["dtold"].elem((j,)) == smisc.decode(fid, "d", pos_by["dtold"] + 8 * j))
@@ -197,7 +197,7 @@ def var_headers(case):
     h = G.var_header(w, case["kind"])
     prove("header.end", G.pos(r.offsets) == h["end"])
     if case["kind"] == "hydro":
-        prove("gamma.position", len(r.bytes.reads) == 1 and bool(SV.lift(r.bytes.reads[0][2]) == h["gamma"]))
+        prove("gamma.position", core.conj(len(r.bytes.reads) == 1, SV.lift(r.bytes.reads[0][2]) == h["gamma"]))
         prove("gamma.value", info["gamma"] == smisc.decode(r.bytes.fileid, "d", h["gamma"]))
     p0 = G.pos(r.offsets)
     r.read_domain_header()
@@ -258,12 +258,12 @@ def _amr_block(case, full_load):
     r.read_cacheline_header(g, ndim)
     w = G.Walker(p0)
     blk = G.amr_block(w, g, ndim)
-    prove("xg.reads", len(f.reads) == ndim and all(bool(SV.lift(f.reads[k][2]) == blk["xg"][k]) and f.reads[k][0] == "d"
-                                                     and bool(SV.lift(f.reads[k][1]) == g) for k in range(ndim)))
+    prove("xg.reads", core.conj(len(f.reads) == ndim, [core.conj(SV.lift(f.reads[k][2]) == blk["xg"][k], f.reads[k][0] == "d",
+                                                                                    SV.lift(f.reads[k][1]) == g) for k in range(min(ndim, len(f.reads)))]))
     prove("son.start", G.pos(r.offsets) == blk["son"][0] - 4)
     for ind in range(tt):
         r.read_variables(g, ind, ilevel, cpuid, info)
-    prove("son.reads", len(f.reads) == ndim + tt and all(bool(SV.lift(f.reads[ndim + k][2]) == blk["son"][k]) for k in range(tt)))
+    prove("son.reads", core.conj(len(f.reads) == ndim + tt, [SV.lift(f.reads[ndim + k][2]) == blk["son"][k] for k in range(tt) if ndim + k < len(f.reads)]))
     r.read_footer(g, tt)
     prove("block.end", G.pos(r.offsets) == blk["end"])
     # contents of the buffers for an arbitrary grid j and every cell index ind
@@ -292,7 +292,7 @@ def _amr_block(case, full_load):
         prove("leaf[%d]" % ind, SV(core.bterm(r.ref.elem((row,))) == core.bterm(leaf), "b"))
     for key in ("level", "cpu", "dx") + tuple("position_" + c for c in "xyz"[:ndim]):
         prove("unit[%s]" % key, r.variables[key]["buffer"].unit == lib[key].units)
-        prove("buffer_length[%s]" % key, bool(r.variables[key]["buffer"].shape[0] == g * tt))
+        prove("buffer_length[%s]" % key, r.variables[key]["buffer"].shape[0] == g * tt)
     cond = r.make_conditions({})
     prove("conditions.leaf_only", list(cond.keys()) == ["leaf"] and cond["leaf"] is r.ref)
 
